@@ -170,7 +170,8 @@ def menus(seed):
     def menu(n):
         m = {48: m48, 32: m32, 8: m8, 1: m1}.get(n)
         if m is None:
-            return [None]
+            # a request size this table does not know (the library may consume its random source in other units): generic alternatives
+            return [None, b"\0" * n, b"\xff" * n, (b"\x01" + b"\0" * (n - 1)) if n else b""]
         return [None] + [v.to_bytes(n, "little") for v in m[1:]]
 
     def default(n, i):
